@@ -12,6 +12,7 @@ import (
 	"testing"
 	"time"
 
+	"github.com/KevoDB/kevo/zsim/simos"
 	"github.com/KevoDB/kevo/zsim/simrt"
 )
 
@@ -397,6 +398,7 @@ func replayMain[C any](t *testing.T, spec Spec[C], path string) {
 		os.Exit(2)
 	}
 	Verbose = true
+	simos.DescribeHex = true
 	res := spec.Run(t, c)
 	out := map[string]any{"property": spec.ID, "path": path, "expected": rf.Violation, "got": res.V,
 		"sched_hash_expected": rf.SchedHash, "sched_hash_got": fmt.Sprintf("%x", res.SchedHash), "trace": tail(res.Trace, 400)}
